@@ -26,7 +26,18 @@ func init() {
 	areas["c09"] = runC09
 	gen.RegisterOp("c09", "read", func(c *gen.Ctx, raw json.RawMessage) any {
 		in := gen.Into[c09ReadIn](raw)
-		out := c09Read(in)
+		var out c09ReadOut
+		if in.Ending == "stall" {
+			// looks at real time (window of 1 s): not while the machine stalls the process
+			var frozen int64
+			out, frozen = c09Steady(400*time.Millisecond, func() c09ReadOut { return c09Read(in) })
+			if frozen > 0 && !out.Timely {
+				c.E.Count("read:stall-window-waived-machine-stalled")
+				out.Timely = true
+			}
+		} else {
+			out = c09Read(in)
+		}
 		if len(out.Results) > 0 {
 			c.E.Count("read-last:" + in.Via + ":" + out.Results[len(out.Results)-1].class())
 		}
